@@ -46,11 +46,12 @@ struct Machine {
     int live_count() const { int n = 0; for (int i = 0; i < NSLOTS; i++) if (ptr[i]) n++; return n; }
     int pick_live(int j) const { for (int d = 0; d < NSLOTS; d++) if (ptr[(j + d) % NSLOTS]) return (j + d) % NSLOTS; return j % NSLOTS; } // arguments refer to live slots whenever one exists
 
-    void start(bool first_inject = true) {
+    std::vector<std::string>* log = nullptr;   // optional transcript (C20)
+    void start(bool first_inject = true, bool set_features = true) {
         for (int s = 0; s < 2; s++) { for (auto& b : deps::kit(s).live) free(b.first); deps::kit(s).live.clear(); /* nothing of an earlier (failed) case may leak into this one */
             deps::kit(s).reset_all(); deps::kit(s).kdf_key_salt = 0x1111u * (unsigned)(s + 1); deps::kit(s).garbage = (uint8_t)(0xA7 + 0x31 * s); }
         cur = 0; opt = deps::OPT_ALL; if (first_inject) deps::inject(0, deps::OPT_ALL);
-        mask = 0; polyseed_enable_features(0);
+        if (set_features) { mask = 0; polyseed_enable_features(0); }
     }
     void release(int i) { // free through the library
         if (!ptr[i]) return; polyseed_data* p = ptr[i];
@@ -114,8 +115,8 @@ struct Machine {
             uint64_t t = model::EPOCH + (uint64_t)(o.c) * 7 * model::STEP / 2 + o.a * 1000; if ((o.c & 7) == 7) t = (o.c & 8) ? UINT64_MAX : 12345; k.clock = t;
             unsigned f = (o.a & 7u); if (o.a & 0x30) f &= mask;            // model-guided: three times out of four ask only for enabled features
             f |= ((o.a & 8u) ? 0xFFFFFFE0u : 0u);
-            wr.malloc_calls = wr.time_calls = wr.free_calls = 0; wr.window = true;
-            polyseed_data* s = nullptr; int st = (int)polyseed_create(f, &s); wr.window = false;
+            if (wr.enabled) { wr.malloc_calls = wr.time_calls = wr.free_calls = 0; wr.window = true; }
+            polyseed_data* s = nullptr; int st = (int)polyseed_create(f, &s); if (wr.enabled) wr.window = false;
             bool supported = ((f & 7u) & ~mask) == 0;
             if (st == 0) { ptr[i] = s; model::Seed m; memcpy(m.secret.data(), rnd.data(), 19); m.secret[18] &= 0x3F; m.features = f & 7u;
                 if (opt & deps::OPT_TIME) m.birthday = model::birthday_index(t); else { unsigned b = model::birthday_index((uint64_t)time(nullptr)); m.birthday = b; lib::Image img = lib::store(s); unsigned v = img[8] | (img[9] << 8); if ((v & 1023u) + 1 == b || (v & 1023u) == b + 1) m.birthday = v & 1023u; }
@@ -141,7 +142,7 @@ struct Machine {
             model::Seed src = slot[j] ? *slot[j] : model::Seed(); img = model::image(src);
             if (kind == 1) img[30] ^= 1; else if (kind == 2) img[0] ^= 0x20; else if (kind == 3) { src.features |= 8; img = model::image(src); } else if (kind == 4) img[28] |= 0x80; else if (kind == 5) { model::Seed z; z.features = (o.c >> 3) & 7u; z.birthday = o.c; img = model::image(z); src = z; }
             release(i);
-            polyseed_data* s = nullptr; wr.malloc_calls = wr.free_calls = 0; wr.window = true; int st = (int)polyseed_load(img.data(), &s); wr.window = false;
+            polyseed_data* s = nullptr; if (wr.enabled) { wr.malloc_calls = wr.free_calls = 0; wr.window = true; } int st = (int)polyseed_load(img.data(), &s); if (wr.enabled) wr.window = false;
             model::Seed ms; int expect = model::load_verdict(img.data(), mask, &ms);
             if (st == 0) { ptr[i] = s; slot[i] = (expect == 0) ? ms : model::Seed(); }
             if (observed_fail()) { saw_alloc_fail = true; if (st != model::MEMORY) err = std::string("the allocator failed during load but the status is ") + model::status_name(st); }
@@ -178,8 +179,8 @@ struct Machine {
                 else expect = supported ? model::OK : model::UNSUPPORTED;
             }
             release(i);
-            polyseed_data* s = nullptr; const polyseed_lang* lo = nullptr; wr.malloc_calls = wr.free_calls = 0; wr.window = true;
-            int st = expl ? (int)polyseed_decode_explicit(phrase.c_str(), (polyseed_coin)B, use, &s) : (int)polyseed_decode(phrase.c_str(), (polyseed_coin)B, &lo, &s); wr.window = false;
+            polyseed_data* s = nullptr; const polyseed_lang* lo = nullptr; if (wr.enabled) { wr.malloc_calls = wr.free_calls = 0; wr.window = true; }
+            int st = expl ? (int)polyseed_decode_explicit(phrase.c_str(), (polyseed_coin)B, use, &s) : (int)polyseed_decode(phrase.c_str(), (polyseed_coin)B, &lo, &s); if (wr.enabled) wr.window = false;
             if (st == 0) { ptr[i] = s; slot[i] = (expect == model::OK) ? src : lib::abstract(s); }
             if (observed_fail()) { saw_alloc_fail = true; if (st != model::MEMORY) err = std::string("the allocator failed during ") + what + " but the status is " + model::status_name(st); else if (fl.check_model && expect != model::OK && expect != model::UNSUPPORTED && expect != -1) err = std::string(what) + ": allocation attempted although the outcome must be " + model::status_name(expect); }
             else if (fl.check_model && expect >= 0 && st != expect) err = std::string(what) + " returned " + model::status_name(st) + ", model says " + model::status_name(expect) + " (phrase kind " + std::to_string(kind) + ", language " + le.name_en + ", coins " + std::to_string(A) + "/" + std::to_string(B) + ", mask " + std::to_string(mask) + ")";
@@ -217,7 +218,7 @@ struct Machine {
         } break;
         case FREE: {
             int i = o.a % NSLOTS; if (!ptr[i]) break; size_t f0 = k.freed.size(); uint64_t fc0 = k.free_calls; polyseed_data* p = ptr[i];
-            wr.free_calls = wr.malloc_calls = 0; wr.window = true; polyseed_free(p); wr.window = false;
+            if (wr.enabled) { wr.free_calls = wr.malloc_calls = 0; wr.window = true; } polyseed_free(p); if (wr.enabled) wr.window = false;
             ptr[i] = nullptr; slot[i].reset(); crypted[i] = false;
             if (free_injected() && fl.check_ledger) {
                 if (k.free_calls != fc0 + 1) err = "free(seed) called the injected free " + std::to_string(k.free_calls - fc0) + " times";
@@ -233,6 +234,7 @@ struct Machine {
         case ARM_FAIL: { armed = (uint64_t)(o.a ? o.a : 1) | ((uint64_t)o.b << 8); cls["armed"]++; } break;
         }
         k.disarm(); (void)req0;
+        if (log) { std::string l = what + " ->"; for (auto& p : cls) if (p.first.find(':') != std::string::npos && p.first.rfind("op:", 0) != 0 && p.first.rfind("cell:", 0) != 0) l += " " + p.first + "=" + std::to_string(p.second); for (int i = 0; i < NSLOTS; i++) if (ptr[i]) { lib::Image im = lib::store(ptr[i]); l += " slot" + std::to_string(i) + "=" + vf::hex(im.data(), 32); } if (!K().kdf.empty()) l += " kdf=" + lib::kdf_str(K().kdf.back()); log->push_back(l); }
         if (!err.empty()) return "step " + std::to_string(step_no) + " " + what + ": " + err;
         if (live_count() > max_live) max_live = live_count();
         return invariants(what.c_str(), other_before);
